@@ -285,6 +285,12 @@ pub fn generate(prop: &str, ctx: &mut Ctx, rep: &mut Report, emit: &mut dyn FnMu
     for i in 0..n {
         let mut b = gen_bundle(&mut rng, &Opts { wf: true, max_blocks: if i % 50 == 0 { 300 } else { 30 } });
         if prop == "C04" && i % 2 == 0 { mutate_after_crc(&mut rng, &mut b); }
+        if prop == "C02" && i % 7 == 3 && b.primary.bundle_control_flags & 1 == 0 {
+            // a non-fragment whose fragment fields still hold values (reassembled bundle, builder call without the
+            // flag): the wire format has 8 (9) items all the same (outside the round-trip domain, inside C02's)
+            b.primary.fragmentation_offset = rng.u64b();
+            b.primary.total_data_length = if rng.chance(1, 4) { 0 } else { 1 + rng.u64b() / 2 };
+        }
         if (prop == "C01" || prop == "C15") && i % 9 == 4 {
             // CRC type codes the library does not know, on fragments and non-fragments alike
             let k = *rng.pick(&[3u8, 4, 23, 24, 255]);
